@@ -192,7 +192,7 @@ theorem get_is_extracted_single (h : List Bytes → UInt64) (env : Env) (pa pa' 
         (match extract sp.key r.view with | .ok v => v | .error _ => []) := by
   have hk' : (sp.key == dotConfig) = false := by simpa using hk
   have hf' : (sp.key == dotFullname) = false := by simpa using hf
-  unfold Parser.parse at hp
+  have hp := parse_ok _ _ _ _ hp
   simp only [parseParts] at hp
   cases hm : makeProjection pa newProjection sp with
   | mk p1 e =>
@@ -476,15 +476,52 @@ example : EnvEq { configKeys := [[97], [98]], exclude := [[47, 120], [47, 121]] 
   simp only [List.contains_iff_mem, List.mem_cons, List.not_mem_nil, or_false]
   by_cases h1 : k = [97] <;> by_cases h2 : k = [98] <;> simp [h1, h2]
 
+/-- **rejected_parse_inert**: a `Parse` or `ParseWithUnit` call whose expression has a rejected part
+(`k@fixed` without a list, a fixed order on `.config`, the key `.unit`, an empty key — wherever in
+the expression) yields no projection and leaves the parser state exactly as it was: no key stays
+excluded, no group counts as projected (repaired by /repo 91c9aa7; before, the side effects of the
+parts walked so far persisted). -/
+theorem rejected_parse_inert (pa : Parser) (e : Bool × List Spec) (h : e.2.any isErr = true) :
+    (parseExpr pa e).1 = pa ∧ ∃ err, (parseExpr pa e).2 = .error err := by
+  obtain ⟨h1, err, h2⟩ := parse_rejected pa e.2 h
+  unfold parseExpr
+  cases e.1
+  · simp only [Bool.false_eq_true, if_false]; exact ⟨h1, err, h2⟩
+  · simp only [if_true, Parser.parseWithUnit]
+    cases hh : pa.parse e.2 with
+    | mk p1 r1 =>
+      rw [hh] at h1 h2
+      simp only at h1 h2
+      subst h1; subst h2
+      exact ⟨rfl, err, rfl⟩
+
+/-- …hence rejected calls can be dropped from any sequence of calls. -/
+theorem parserAfter_drop_rejected (pa : Parser) (es : List (Bool × List Spec)) :
+    parserAfter pa es = parserAfter pa (es.filter fun e => !e.2.any isErr) := by
+  rw [parserAfter_eq, parserAfter_eq]
+  congr 1
+  induction es with
+  | nil => rfl
+  | cons e rest ih =>
+    have hnil : e.2.any isErr = true → effSpecs e.2 = [] := fun h => by simp [effSpecs, h]
+    cases he : e.2.any isErr with
+    | true =>
+      rw [List.flatMap_cons, hnil he, List.nil_append, ih, List.filter_cons]
+      simp [he]
+    | false =>
+      rw [List.flatMap_cons, List.filter_cons]
+      simp only [he, Bool.not_false, if_true, List.flatMap_cons]
+      rw [ih]
+
 /-- **exclusion_order_independent**: take any parser (that has not projected yet) and any two
-orders `es`, `es'` of the same `Parse`/`ParseWithUnit` calls (failing calls included: their side
-effects are part of the model). Then
+orders `es`, `es'` of the same `Parse`/`ParseWithUnit` calls (rejected calls included: they are
+inert, `rejected_parse_inert`). Then
 (a) every expression yields the same projection wherever in the sequence it is parsed;
 (b) `Residue` yields the same projection after either order;
 (c) every projection behaves identically after either order, on every stream of `Project` /
     `ProjectValues` calls: same final state (group fields, nodes, order maps) and same keys;
 (d) what is excluded is exactly the specific keys of all expressions: a key is in `configKeys`
-    iff some executed part names it as a config key (`config_group_fields`: such keys never become
+    iff some part of an ACCEPTED expression names it as a config key (`config_group_fields`: such keys never become
     `.config` sub-fields), and `fullnameKeys` is, up to order, the list of all name keys named
     (`fullExcluded_perm_invariant`: the order does not matter for `.fullname`).
 For every hash function. -/
@@ -494,9 +531,9 @@ theorem exclusion_order_independent (h : List Bytes → UInt64) (pa : Parser) (h
     ((parserAfter pa es).residue).2 = ((parserAfter pa es').residue).2 ∧
     (∀ p ops, runOps h (envOf (parserAfter pa es)) p ops = runOps h (envOf (parserAfter pa es')) p ops) ∧
     (∀ k, k ∈ (parserAfter pa es).configKeys ↔
-      k ∈ pa.configKeys ∨ ∃ sp ∈ es.flatMap (fun e => execSpecs e.2), cfgKeyOf sp = some k) ∧
+      k ∈ pa.configKeys ∨ ∃ sp ∈ es.flatMap (fun e => effSpecs e.2), cfgKeyOf sp = some k) ∧
     (parserAfter pa es).fullnameKeys =
-      pa.fullnameKeys ++ (es.flatMap fun e => execSpecs e.2).flatMap nameKeyOf := by
+      pa.fullnameKeys ++ (es.flatMap fun e => effSpecs e.2).flatMap nameKeyOf := by
   obtain ⟨henv, hc, hf⟩ := parserAfter_perm pa hfresh es es' hp
   obtain ⟨o1, o2, _, _, _⟩ := parserAfter_obs pa es
   exact ⟨fun e pa₁ pa₂ => parseExpr_proj pa₁ pa₂ e, residue_proj_congr _ _ hc hf,
@@ -602,7 +639,7 @@ theorem lossless_parser (h : List Bytes → UInt64) (es : List (Bool × List Spe
   have hres : ((parserAfter Parser.new es).residue).2 ∈ origins es := by simp [origins]
   -- a part that sets a flag makes the closure exist
   have hflag : ∀ (fl : Spec → Bool), (∀ sp x, fl sp = true → NewPart sp x → fl sp = true) →
-      ((es.flatMap fun e => execSpecs e.2).any fl = true) →
+      ((es.flatMap fun e => effSpecs e.2).any fl = true) →
       ∃ e ∈ es, ∃ sp ∈ e.2, fl sp = true := by
     intro fl _ hany
     obtain ⟨sp, hsp, hfl⟩ := List.any_eq_true.mp hany
